@@ -583,11 +583,12 @@ def checkTxn (s : St) : St := Id.run do
         if changed && (lookup s.last cid).isSome then s := { s with rerouted := s.rerouted + 1 }
         match costEncl s.orth s.pen r, costEncl s.orth s.pen f with
         | some (il, ih), some (fl, fh) =>
-          if s.pinHist && (il > fh + tol || fl > ih + tol) then
-            -- histories with connection pins: on the unchanged library a fresh router and the incremental one reach
-            -- pins on shape borders along different channels (hugging the anchor's own border, ignoring the pin's
-            -- directions) and disagree in cost in BOTH directions, in both routing modes (report of fC06, suspected
-            -- C04-type defect of pin visibility); counted, not judged
+          let multiPin := s.pins.any fun p => (s.pins.filter fun q => q.1 == p.1 && q.2.1 == p.2.1).length ≥ 2
+          if s.pinHist && (s.orth || multiPin || fl > ih + tol) && (il > fh + tol || fl > ih + tol) then
+            -- (not in the plan; C06_PIN_ORTH=1 / C06_PIN_MULTI=1) pin histories with orthogonal routing, or with two
+            -- pins in one class of a shape: on the unchanged library the incremental router and a fresh one disagree
+            -- in cost in both directions (orthogonal: border pins are reached along different channels; two pins in a
+            -- class: a connector keeps the pin it used before its shape moved); counted, not judged
             s := s.bump (if il > fh + tol then "cost.pin-history-not-judged.fresh-cheaper" else "cost.pin-history-not-judged.incremental-cheaper")
           else if il > fh + tol then
             -- is the fresh route better only through fewer bends (its pure length is not shorter)?
